@@ -375,6 +375,9 @@ class Tally(StatisticsInterface):
         """
         if not isinstance(value, (int, float)):
             raise TypeError("tally registered value must be a number")
+        # a number-like object (e.g., a quantity) counts with its float value
+        if type(value) not in (int, float):
+            value = float(value)
         if math.isnan(value):
             raise ValueError("tally registered value cannot be nan")
         if self._n == 0:
@@ -917,6 +920,11 @@ class WeightedTally(StatisticsInterface):
             raise TypeError("weight should be a number")
         if not isinstance(value, (int, float)):
             raise TypeError("value should be a number")
+        # a number-like object (e.g., a quantity) counts with its float value
+        if type(weight) not in (int, float):
+            weight = float(weight)
+        if type(value) not in (int, float):
+            value = float(value)
         if math.isnan(value):
             raise ValueError("tally registered value cannot be nan")
         if math.isnan(weight):
@@ -1382,6 +1390,11 @@ class TimestampWeightedTally(WeightedTally):
             raise TypeError("timestamp is not a number")
         if not isinstance(value, (float, int)):
             raise TypeError("observation value is not a number")
+        # a number-like object (e.g., a quantity) counts with its float value
+        if type(timestamp) not in (int, float):
+            timestamp = float(timestamp)
+        if type(value) not in (int, float):
+            value = float(value)
         if math.isnan(value):
             raise ValueError("tally registered value cannot be nan")
         if math.isnan(timestamp):
